@@ -32,3 +32,26 @@ Theorem C06_client_rewrite_inert : forall winenv d tunnel buf out t d', d_relay 
   forall winenv2 d2 tunnel2, detect winenv2 d2 tunnel2 out = (out, None, d2).
 Proof. exact client_rewrite_inert. Qed.
 Print Assumptions C06_client_rewrite_inert.
+
+(* over the WHOLE history of calls one detector has seen (any buffers, any tunnel flags,
+   any number of prunings of the id table): a trigger whose dedup-eligible id is among the
+   replay_window (= 52 >= 50) most recently accepted eligible ids is never accepted again.
+   hist_run returns the detector after the calls and the accepted eligible ids, newest first. *)
+Theorem C06_replay : forall winenv relay tmux calls d acc,
+  hist_run winenv (new_det relay tmux) calls = (d, acc) ->
+  forall tunnel buf out tr d', detect winenv d tunnel buf = (out, Some tr, d') ->
+  dedup_eligible winenv (t_id tr) = true -> ~ In (t_id tr) (firstn replay_window acc).
+Proof. exact replay. Qed.
+Print Assumptions C06_replay.
+
+Example C06_replay_window : replay_window = 52%nat /\ (50 <= replay_window)%nat.
+Proof. split; [reflexivity | vm_compute; repeat constructor]. Qed.
+
+(* non-vacuity: the redraw of a tmux trigger (id ...20) is accepted once and then ignored *)
+Example C06_replay_nonvacuous :
+  let line := trigger_line 82 (1, 1, 6) 123456789020 0 in
+  let '(d1, acc1) := hist_run false (new_det false false) [(false, line)] in
+  acc1 = [[48; 49; 50; 51; 52; 53; 54; 55; 56; 57; 48; 50; 48]] /\
+  dedup_eligible false (hd [] acc1) = true /\
+  snd (fst (detect false d1 false line)) = None.
+Proof. vm_compute. auto. Qed.
